@@ -134,6 +134,20 @@ func (s *Snap) coq() string {
 		vh.List(txs, "N"), vh.NU(s.Ts), sig)
 }
 
+// Large cases (long byte strings are slow to parse on the Coq side) are sent to
+// the model only while this budget lasts; the oracle sees every case.
+var bigLeft = 1 << 30
+
+func model(size int, term string) string {
+	if size > 1500 {
+		if bigLeft <= 0 {
+			return ""
+		}
+		bigLeft--
+	}
+	return term
+}
+
 func resBytes(pan bool, b []byte) string {
 	if pan {
 		return vh.Pan("(list N)")
@@ -247,20 +261,20 @@ func run(c *vh.Ctx, cs Case) {
 		r, err, pan := decode(b)
 		kind := "dec:" + cs.Origin
 		if pan {
-			c.Case(kind, cs.B, true, cs, vh.App("CDec", vh.Bytes(b), vh.Pan("(snapshot * N)")))
+			c.Case(kind, cs.B, true, cs, model(len(b), vh.App("CDec", vh.Bytes(b), vh.Pan("(snapshot * N)"))))
 			c.Fail("decoder-panic", "UnmarshalVersionedSnapshot panicked", cs)
 			return
 		}
 		if err != nil {
-			c.Case(kind, cs.B, validHeader(b), cs, vh.App("CDec", vh.Bytes(b), vh.Err("(snapshot * N)")))
+			c.Case(kind, cs.B, validHeader(b), cs, model(len(b), vh.App("CDec", vh.Bytes(b), vh.Err("(snapshot * N)"))))
 			if cs.Expect == "accept" {
 				c.Fail("valid-rejected", "an encoding produced by VersionedMarshal (full topology suffix or none) was rejected: "+err.Error(), cs)
 			}
 			return
 		}
 		got := fromGo(r.Snapshot)
-		c.Case(kind, cs.B, true, cs, vh.App("CDec", vh.Bytes(b),
-			vh.Ok("("+got.coq()+", "+vh.NU(r.TopologicalOrder)+")")))
+		c.Case(kind, cs.B, true, cs, model(len(b), vh.App("CDec", vh.Bytes(b),
+			vh.Ok("("+got.coq()+", "+vh.NU(r.TopologicalOrder)+")"))))
 		switch cs.Expect {
 		case "reject-partial-topology":
 			c.Fail("partial-topology-accepted", fmt.Sprintf("an encoding whose 8-byte topology suffix is cut short was accepted with order %d", r.TopologicalOrder), cs)
@@ -270,10 +284,10 @@ func run(c *vh.Ctx, cs Case) {
 		checkAccepted(c, cs, b, got, r.TopologicalOrder)
 	case "enc":
 		out, pan := marshal(cs.S, cs.Topo)
-		c.Case("enc", keyOf(cs), !pan, cs, vh.App("CEnc", cs.S.coq(), vh.NU(cs.Topo), resBytes(pan, out)))
+		c.Case("enc", keyOf(cs), !pan, cs, model(32*len(cs.S.Txs), vh.App("CEnc", cs.S.coq(), vh.NU(cs.Topo), resBytes(pan, out))))
 	case "pay":
 		out, pan := payloadBytes(cs.S)
-		c.Case("pay", keyOf(cs), !pan, cs, vh.App("CPay", cs.S.coq(), resBytes(pan, out)))
+		c.Case("pay", keyOf(cs), !pan, cs, model(32*len(cs.S.Txs), vh.App("CPay", cs.S.coq(), resBytes(pan, out))))
 	case "hash":
 		h, pan := payloadHash(cs.S, cs.Topo)
 		var p []byte
@@ -291,7 +305,7 @@ func run(c *vh.Ctx, cs Case) {
 				c.Fail("hash-not-of-payload", "PayloadHash is not the hash of the payload encoding (encoding without signature and topology)", cs)
 			}
 		}
-		c.Case("hash", keyOf(cs), !pan, cs, vh.App("CHash", cs.S.coq(), resBytes(pan, p)))
+		c.Case("hash", keyOf(cs), !pan, cs, model(32*len(cs.S.Txs), vh.App("CHash", cs.S.coq(), resBytes(pan, p))))
 	case "roundtrip":
 		// a well-formed snapshot encodes, and both forms decode to it (transactions sorted)
 		want := cs.S.clone()
@@ -592,7 +606,7 @@ func (g *gen) dec(b []byte, expect, origin string) {
 }
 
 // snapshot: every observation on one structured snapshot.
-func (g *gen) snapshot(s *Snap, topo uint64, cuts bool) {
+func (g *gen) snapshot(s *Snap, topo uint64, cuts bool, allSeven bool) {
 	c := g.c
 	run(c, Case{Op: "enc", S: s, Topo: topo})
 	run(c, Case{Op: "pay", S: s})
@@ -613,7 +627,7 @@ func (g *gen) snapshot(s *Snap, topo uint64, cuts bool) {
 	L := len(full)
 	g.dec(full, exp, "valid-full")
 	g.dec(full[:L-8], exp, "valid-bare")
-	if wf && L < 400 {
+	if wf && L < 300 {
 		g.valid = append(g.valid, full)
 	}
 	if !wf || !cuts {
@@ -621,7 +635,9 @@ func (g *gen) snapshot(s *Snap, topo uint64, cuts bool) {
 	}
 	// the partial topology suffix (defect F3, repaired): cut to 1..7 bytes
 	for k := 1; k <= 7; k++ {
-		g.dec(full[:L-8+k], "reject-partial-topology", "cut-topology")
+		if allSeven || k == 1+int(topo+s.Ts+s.Round)%7 {
+			g.dec(full[:L-8+k], "reject-partial-topology", "cut-topology")
+		}
 	}
 }
 
@@ -636,7 +652,7 @@ func (g *gen) allCuts(s *Snap, topo uint64) {
 	}
 	for _, base := range [][]byte{full, full[:L-8]} {
 		for k := 1; k <= 16; k++ {
-			for _, fill := range []byte{0x00, 0xff, 0x5a} {
+			for _, fill := range []byte{0x00, 0xff} {
 				ext := append(append([]byte{}, base...), bytes.Repeat([]byte{fill}, k)...)
 				exp := "reject"
 				if len(base) == L-8 && k == 8 {
@@ -665,6 +681,7 @@ func main() {
 	}
 	g := &gen{c: c}
 	r := c.Rng
+	bigLeft = c.Scale(8, 300)
 
 	// ---- corpus ----------------------------------------------------------------------
 	sig := hex.EncodeToString(bytes.Repeat([]byte{0xab}, 64))
@@ -680,12 +697,14 @@ func main() {
 	}
 	for i, s := range corpus {
 		topo := []uint64{0, 1, 0x0102030405060708, ^uint64(0), 0, 0}[i]
-		g.snapshot(s, topo, true)
+		g.snapshot(s, topo, true, true)
 	}
 	g.allCuts(corpus[0], 0)
-	g.allCuts(corpus[1], 9)
 	g.allCuts(corpus[3], 0x0102030405060708)
-	g.allCuts(corpus[4], 0)
+	if c.Tier != "quick" {
+		g.allCuts(corpus[1], 9)
+		g.allCuts(corpus[4], 0)
+	}
 	// 255 / 256 / 0 transactions, duplicates, round rules, signature with mask 0, versions
 	many := &Snap{Version: 2, Node: constHash(0x05), Round: 3, Refs: refs, Ts: 9, HasSig: true, Mask: 3, Sig: sig}
 	for i := 0; i < 255; i++ {
@@ -693,10 +712,10 @@ func main() {
 		b[31] = byte(i)
 		many.Txs = append(many.Txs, hex.EncodeToString(b))
 	}
-	g.snapshot(many, 77, true)
+	g.snapshot(many, 77, true, false)
 	over := many.clone()
 	over.Txs = append(over.Txs, constHash(0x00))
-	g.snapshot(over, 0, false)
+	g.snapshot(over, 0, false, false)
 	bad := []*Snap{
 		{Version: 2, Node: constHash(1), Round: 3, Refs: refs, Txs: []string{}, Ts: 1},
 		{Version: 2, Node: constHash(1), Round: 3, Refs: refs, Txs: []string{t1, t1}, Ts: 1},
@@ -710,7 +729,7 @@ func main() {
 		{Version: 0, Node: constHash(1), Round: 0, Txs: []string{t1}, Ts: 1},
 	}
 	for _, s := range bad {
-		g.snapshot(s, 5, false)
+		g.snapshot(s, 5, false, false)
 	}
 	// hand-made byte strings around a valid encoding
 	base, _ := marshal(corpus[3], 4)
@@ -749,7 +768,7 @@ func main() {
 	}
 
 	// ---- structured snapshots ----------------------------------------------------------
-	n := c.Scale(60, 3000)
+	n := c.Scale(50, 2500)
 	for i := 0; i < n; i++ {
 		s := randSnap(r, i%10 == 9)
 		if r.Chance(3, 4) {
@@ -757,7 +776,7 @@ func main() {
 		}
 		topo := randU64(r)
 		small := len(s.Txs) <= 20
-		g.snapshot(s, topo, small)
+		g.snapshot(s, topo, small, false)
 		if small && wellFormed(s) && r.Chance(1, 3) {
 			// random truncations and extensions of this encoding
 			full, _ := marshal(s, topo)
@@ -784,7 +803,7 @@ func main() {
 	}
 
 	// ---- single-byte mutations of valid encodings -----------------------------------------
-	n = c.Scale(500, 20000)
+	n = c.Scale(250, 10000)
 	for i := 0; i < n && len(g.valid) > 0; i++ {
 		b := append([]byte{}, g.valid[r.Intn(len(g.valid))]...)
 		if r.Bool() {
@@ -807,7 +826,7 @@ func main() {
 	}
 
 	// ---- random bytes -------------------------------------------------------------------------
-	n = c.Scale(200, 10000)
+	n = c.Scale(150, 6000)
 	for i := 0; i < n; i++ {
 		var b []byte
 		switch r.Intn(4) {
